@@ -260,6 +260,30 @@ var targets = []target{
 			"CertificateBuildParams.IsARetry":        {Rets: []ty{{k: kBool}}, RecvOpt: true},
 		},
 		Funcs: []string{"baseFlow.limitCertSize", "baseFlow.getNewLocalExitRoot", "baseFlow.verifyRetryCertStartingBlock"}},
+	{File: "bridgeservice/bridge.go", Out: "GenL1InfoIndex.v",
+		Module: "bridgeservice/bridge.go (getFirstL1InfoTreeIndexForL1Bridge, getFirstL1InfoTreeIndexForL2Bridge: the two binary searches of the l1-info-tree-index endpoint)",
+		Hash: true, IntLit: true, Ctx: "BridgeService", DropParams: []string{"ctx"},
+		Structs:     []string{"L1InfoTreeLeaf", "VerifyBatches", "Root"},
+		StructsFrom: map[string]string{"L1InfoTreeLeaf": "l1infotreesync/processor.go", "VerifyBatches": "l1infotreesync/processor.go", "Root": "tree/types/types.go"},
+		StructFields: map[string][]string{"L1InfoTreeLeaf": {"BlockNumber", "L1InfoTreeIndex", "MainnetExitRoot"},
+			"VerifyBatches": {"BlockNumber", "ExitRoot", "RollupExitRoot"}, "Root": {"Index"}},
+		CtxCalls: map[string]ctxCall{
+			"GetLastInfo":  {Var: "getLastInfo", Rets: []ty{{k: kOpt, sub: []ty{{k: kStruct, name: "L1InfoTreeLeaf"}}}, {k: kErr}}},
+			"GetFirstInfo": {Var: "getFirstInfo", Rets: []ty{{k: kOpt, sub: []ty{{k: kStruct, name: "L1InfoTreeLeaf"}}}, {k: kErr}}},
+			"GetFirstInfoAfterBlock": {Var: "getFirstInfoAfterBlock", Params: []ty{{k: kInt}},
+				Rets: []ty{{k: kOpt, sub: []ty{{k: kStruct, name: "L1InfoTreeLeaf"}}}, {k: kErr}}},
+			"bridgeL1.GetRootByLER": {Var: "rootByLER_L1", Params: []ty{hashT}, Rets: []ty{{k: kOpt, sub: []ty{{k: kStruct, name: "Root"}}}, {k: kErr}}},
+			"bridgeL2.GetRootByLER": {Var: "rootByLER_L2", Params: []ty{hashT}, Rets: []ty{{k: kOpt, sub: []ty{{k: kStruct, name: "Root"}}}, {k: kErr}}},
+			"GetLastVerifiedBatches": {Var: "getLastVerifiedBatches", Params: []ty{{k: kInt}},
+				Rets: []ty{{k: kOpt, sub: []ty{{k: kStruct, name: "VerifyBatches"}}}, {k: kErr}}},
+			"GetFirstVerifiedBatches": {Var: "getFirstVerifiedBatches", Params: []ty{{k: kInt}},
+				Rets: []ty{{k: kOpt, sub: []ty{{k: kStruct, name: "VerifyBatches"}}}, {k: kErr}}},
+			"GetFirstVerifiedBatchesAfterBlock": {Var: "getFirstVerifiedBatchesAfterBlock", Params: []ty{{k: kInt}, {k: kInt}},
+				Rets: []ty{{k: kOpt, sub: []ty{{k: kStruct, name: "VerifyBatches"}}}, {k: kErr}}},
+			"GetFirstL1InfoWithRollupExitRoot": {Var: "getFirstL1InfoWithRollupExitRoot", Params: []ty{hashT},
+				Rets: []ty{{k: kOpt, sub: []ty{{k: kStruct, name: "L1InfoTreeLeaf"}}}, {k: kErr}}},
+		},
+		Funcs: []string{"BridgeService.getFirstL1InfoTreeIndexForL1Bridge", "BridgeService.getFirstL1InfoTreeIndexForL2Bridge"}},
 	{File: "aggsender/types/block_range.go", Out: "GenBlockRange.v", Module: "aggsender/types/block_range.go",
 		Structs: []string{"BlockRange"},
 		Funcs:   []string{"getBlockMinusOne", "BlockRange.CountBlocks", "BlockRange.IsEmpty", "BlockRange.Gap"}},
@@ -372,17 +396,28 @@ type env struct {
 	panicVar string
 	// inside `for { }`: the call that starts the next iteration with the current values of the loop variables
 	contCall string
+	// inside `for cond { }`: the translated rest of the function, for `break`
+	breakCode string
+	// identifiers that are Go pointers but stand here for the record pointed to (bound below a nil test)
+	wasPtr map[string]bool
+	// fuel loop: its carried variables in order, and which of them are pointers (option) in the loop's signature
+	loopNames []string
+	loopPtr   map[string]bool
 }
 
 func (e *env) clone() *env {
 	n := &env{vars: map[string]ty{}, recv: e.recv, rctx: e.rctx, flat: e.flat, rets: e.rets, named: e.named,
-		loopTup: e.loopTup, inLoop: e.inLoop, loopRet: e.loopRet, panicVar: e.panicVar, contCall: e.contCall}
+		loopTup: e.loopTup, inLoop: e.inLoop, loopRet: e.loopRet, panicVar: e.panicVar, contCall: e.contCall, breakCode: e.breakCode, loopNames: e.loopNames, loopPtr: e.loopPtr}
 	for k, v := range e.vars {
 		n.vars[k] = v
 	}
 	n.deref = map[string]string{}
 	for k, v := range e.deref {
 		n.deref[k] = v
+	}
+	n.wasPtr = map[string]bool{}
+	for k, v := range e.wasPtr {
+		n.wasPtr[k] = v
 	}
 	return n
 }
@@ -834,7 +869,11 @@ func (t *tr) call(v *ast.CallExpr, en *env) (string, ty) {
 		}
 	}
 	if chain, ok := selChain(v.Fun); ok && en.rctx && chain[0] == en.recv && len(chain) >= 2 {
-		if cc, ok := t.tg.CtxCalls[chain[len(chain)-1]]; ok { // a call through the context: an oracle
+		cc, ok := t.tg.CtxCalls[chain[len(chain)-1]]
+		if c2, ok2 := t.tg.CtxCalls[strings.Join(chain[len(chain)-2:], ".")]; ok2 { // field.Method distinguishes two fields of one interface type
+			cc, ok = c2, true
+		}
+		if ok { // a call through the context: an oracle
 			var args []string
 			for _, a := range v.Args {
 				if aid, ok := a.(*ast.Ident); ok {
@@ -1357,7 +1396,7 @@ func endsWithReturn(list []ast.Stmt) bool {
 	case *ast.ReturnStmt:
 		return true
 	case *ast.BranchStmt:
-		return v.Tok == token.CONTINUE
+		return v.Tok == token.CONTINUE || v.Tok == token.BREAK
 	case *ast.IfStmt:
 		if v.Else == nil {
 			return false
@@ -1422,6 +1461,9 @@ func assigned(list []ast.Stmt, acc map[string]bool) {
 			if eb, ok := v.Else.(*ast.BlockStmt); ok {
 				assigned(eb.List, acc)
 			}
+			if ei, ok := v.Else.(*ast.IfStmt); ok {
+				assigned([]ast.Stmt{ei}, acc)
+			}
 		}
 	}
 }
@@ -1434,7 +1476,7 @@ func (t *tr) block(list []ast.Stmt, en *env, tail string, ind string) string {
 			return "?"
 		}
 		if tail == "\x00CONT" { // end of the body of `for { }`: next iteration, with the loop variables as they are now
-			return en.contCall
+			return t.nextIter(en)
 		}
 		return tail
 	}
@@ -1470,6 +1512,7 @@ func (t *tr) block(list []ast.Stmt, en *env, tail string, ind string) string {
 		if id, ok := d.(*ast.Ident); ok {
 			bound = id.Name
 			some.vars[id.Name] = pt.sub[0]
+			some.wasPtr[id.Name] = true
 		} else {
 			t.fresh++
 			bound = fmt.Sprintf("p%d__", t.fresh)
@@ -1483,6 +1526,12 @@ func (t *tr) block(list []ast.Stmt, en *env, tail string, ind string) string {
 	case *ast.BranchStmt:
 		if v.Tok == token.CONTINUE && en.inLoop {
 			return t.loopTail(en, "")
+		}
+		if v.Tok == token.BREAK && en.breakCode != "" {
+			return en.breakCode
+		}
+		if v.Tok == token.CONTINUE && en.contCall != "" {
+			return t.nextIter(en)
 		}
 		t.fail(v, "branch statement %s", v.Tok)
 		return "?"
@@ -1603,6 +1652,12 @@ func (t *tr) block(list []ast.Stmt, en *env, tail string, ind string) string {
 				parts = append(parts, "EOK")
 				continue
 			}
+			if id, ok := r.(*ast.Ident); ok && i < len(en.rets) && en.rets[i].k == kErr && strings.HasPrefix(id.Name, "Err") {
+				if _, local := en.vars[id.Name]; !local { // a package-level sentinel error
+					parts = append(parts, "EFail")
+					continue
+				}
+			}
 			c, ct := t.expr(r, en)
 			if bl, ok := r.(*ast.BasicLit); ok && bl.Kind == token.INT && ct.k == kInt && i < len(en.rets) && en.rets[i].k == kZ {
 				c += "%Z"
@@ -1671,6 +1726,15 @@ func (t *tr) block(list []ast.Stmt, en *env, tail string, ind string) string {
 		if len(v.Lhs) == 1 {
 			switch l := v.Lhs[0].(type) {
 			case *ast.Ident:
+				if old, exists := en.vars[l.Name]; exists && v.Tok == token.ASSIGN && old.k == kOpt && len(old.sub) == 1 && old.sub[0].k == kStruct && ct.k == kStruct {
+					// p = q where p is a pointer variable and q stands for a record known to be non-nil: p points to it
+					return "let " + l.Name + " := (Some " + c + ") in\n" + ind + t.block(rest, en, tail, ind)
+				}
+				if ct.k == kStruct && en.wasPtr[id0(v.Rhs[0])] { // q := p where p is a bound pointer: q is one too
+					en.wasPtr[l.Name] = true
+				} else {
+					delete(en.wasPtr, l.Name)
+				}
 				en.vars[l.Name] = ct
 				return "let " + l.Name + " := " + c + " in\n" + ind + t.block(rest, en, tail, ind)
 			case *ast.IndexExpr: // a[i] = e
@@ -1710,6 +1774,7 @@ func (t *tr) block(list []ast.Stmt, en *env, tail string, ind string) string {
 			names = append(names, id.Name)
 			if ct.k == kTuple && i < len(ct.sub) {
 				en.vars[id.Name] = ct.sub[i]
+				delete(en.wasPtr, id.Name)
 			}
 		}
 		return "let '(" + strings.Join(names, ", ") + ") := " + c + " in\n" + ind + t.block(rest, en, tail, ind)
@@ -1768,8 +1833,12 @@ func (t *tr) block(list []ast.Stmt, en *env, tail string, ind string) string {
 		if v.Else != nil {
 			eb, ok := v.Else.(*ast.BlockStmt)
 			if !ok {
-				t.fail(v, "else-if chain")
-				return "?"
+				if ei, isIf := v.Else.(*ast.IfStmt); isIf { // else if ..: an else block holding that if
+					eb = &ast.BlockStmt{List: []ast.Stmt{ei}}
+				} else {
+					t.fail(v, "else branch")
+					return "?"
+				}
 			}
 			elseList, hasElse = eb.List, true
 		}
@@ -1786,7 +1855,8 @@ func (t *tr) block(list []ast.Stmt, en *env, tail string, ind string) string {
 				b = t.block(rest, en, tail, ind+"  ")
 			}
 			return "if " + c + " then\n" + ind + "  " + a + "\n" + ind + "else\n" + ind + "  " + b
-		case hasReturn(v.Body.List) || (hasElse && hasReturn(elseList)):
+		case hasReturn(v.Body.List) || (hasElse && hasReturn(elseList)) ||
+			(en.contCall != "" && (hasBreak(v.Body.List) || hasBreak(elseList) || hasContinue(v.Body.List) || hasContinue(elseList))):
 			// a branch may return or fall through: each branch is followed by the rest of the function
 			a := t.block(append(append([]ast.Stmt{}, v.Body.List...), rest...), en.clone(), tail, ind+"  ")
 			b := t.block(append(append([]ast.Stmt{}, elseList...), rest...), en.clone(), tail, ind+"  ")
@@ -2108,7 +2178,7 @@ func stripConv(e ast.Expr) ast.Expr {
 // explicit fuel: the function gets a parameter `fuel__ : nat`, and what it returns when the fuel runs out is a parameter too
 // (Section variable nofuel_f of the result type). A theorem for enough fuel and every value of that parameter is a theorem about
 // the terminating runs.
-func (t *tr) foreverLoop(v *ast.ForStmt, en *env, ind string) string {
+func (t *tr) foreverLoop(v *ast.ForStmt, rest []ast.Stmt, en *env, tail string, ind string) string {
 	acc := map[string]bool{}
 	assigned(v.Body.List, acc)
 	var names []string
@@ -2126,21 +2196,105 @@ func (t *tr) foreverLoop(v *ast.ForStmt, en *env, ind string) string {
 	decl := "Variable " + nofuel + " : " + rt.coq() + "."
 	t.panics = append(t.panics, decl)
 	t.needFuel = true
-	var params, args []string
+	var params, args, inits []string
+	en = en.clone()
 	for _, n := range names {
-		params = append(params, fmt.Sprintf("(%s : %s)", n, en.vars[n].coq()))
+		vt := en.vars[n]
+		init := n
+		if vt.k == kStruct && en.wasPtr[n] { // a Go pointer carried round the loop: it is a pointer again inside
+			vt = ty{k: kOpt, sub: []ty{vt}}
+			init = "(Some " + n + ")"
+			en.vars[n] = vt
+			delete(en.wasPtr, n)
+		}
+		params = append(params, fmt.Sprintf("(%s : %s)", n, vt.coq()))
 		args = append(args, n)
+		inits = append(inits, init)
 	}
 	ben := en.clone()
 	ben.contCall = "(loop__ fuel__ " + strings.Join(args, " ") + ")"
+	ben.loopNames = names
+	ben.loopPtr = map[string]bool{}
+	for _, n := range names {
+		if en.vars[n].k == kOpt {
+			ben.loopPtr[n] = true
+		}
+	}
+	head := ""
+	if v.Cond != nil || hasBreak(v.Body.List) {
+		// `for cond { .. break .. }`: leaving the loop (condition false, or break) continues with the rest of the function, which
+		// reads the loop variables by name
+		exit := t.block(rest, en.clone(), tail, ind+"      ")
+		ben.breakCode = exit
+		if v.Cond != nil {
+			c, _ := t.expr(v.Cond, en)
+			head = "if (negb " + c + ") then\n" + ind + "      " + exit + "\n" + ind + "    else\n" + ind + "    "
+		}
+	}
 	body := t.block(v.Body.List, ben, "\x00CONT", ind+"      ")
-	return "(fix loop__ (fuel__ : nat) " + strings.Join(params, " ") + " {struct fuel__} : " + rt.coq() + " :=\n" + ind + "    match fuel__ with\n" + ind +
-		"    | O => " + nofuel + "\n" + ind + "    | S fuel__ =>\n" + ind + "      " + body + "\n" + ind + "    end) fuel__ " + strings.Join(args, " ")
+	return "(fix loop__ (fuel__ : nat) " + strings.Join(params, " ") + " {struct fuel__} : " + rt.coq() + " :=\n" + ind + "    " + head + "match fuel__ with\n" + ind +
+		"    | O => " + nofuel + "\n" + ind + "    | S fuel__ =>\n" + ind + "      " + body + "\n" + ind + "    end) fuel__ " + strings.Join(inits, " ")
+}
+
+// nextIter: the recursive call of a fuel loop; a carried pointer that stands for the record it points to here is passed as Some
+func (t *tr) nextIter(en *env) string {
+	var args []string
+	for _, n := range en.loopNames {
+		if en.loopPtr[n] && en.vars[n].k == kStruct {
+			args = append(args, "(Some "+n+")")
+		} else {
+			args = append(args, n)
+		}
+	}
+	return "(loop__ fuel__ " + strings.Join(args, " ") + ")"
+}
+
+func id0(e ast.Expr) string {
+	if id, ok := e.(*ast.Ident); ok {
+		return id.Name
+	}
+	return ""
+}
+
+func hasContinue(list []ast.Stmt) bool {
+	found := false
+	for _, s := range list {
+		ast.Inspect(s, func(n ast.Node) bool {
+			switch x := n.(type) {
+			case *ast.ForStmt, *ast.RangeStmt:
+				return false
+			case *ast.BranchStmt:
+				if x.Tok == token.CONTINUE {
+					found = true
+				}
+			}
+			return true
+		})
+	}
+	return found
+}
+
+func hasBreak(list []ast.Stmt) bool {
+	found := false
+	for _, s := range list {
+		ast.Inspect(s, func(n ast.Node) bool {
+			switch x := n.(type) {
+			case *ast.ForStmt, *ast.RangeStmt, *ast.SwitchStmt:
+				return false
+			case *ast.BranchStmt:
+				if x.Tok == token.BREAK {
+					found = true
+				}
+			}
+			return true
+		})
+	}
+	return found
 }
 
 func (t *tr) forLoop(v *ast.ForStmt, rest []ast.Stmt, en *env, tail string, ind string) string {
-	if v.Init == nil && v.Cond == nil && v.Post == nil {
-		return t.foreverLoop(v, en, ind)
+	if v.Init == nil && v.Post == nil {
+		return t.foreverLoop(v, rest, en, tail, ind)
 	}
 	init, ok1 := v.Init.(*ast.AssignStmt)
 	cond, ok2 := v.Cond.(*ast.BinaryExpr)
